@@ -72,10 +72,12 @@ Truncate(size) ==
 
 \* a pack that freed something swaps the rewritten file in: from now on the packed history is what the file
 \* holds (its end position is re-derived); a pack is not a transaction, it only starts a new version
+PackBegin == phase = "idle" /\ phase' = "packing" /\ UNCHANGED <<pos, tail, total, ncommit, nack>>
 PackSwap(newpos) ==
-  /\ phase = "idle"
+  /\ phase = "packing"
   /\ pos' = newpos /\ ncommit' = ncommit + 1 /\ nack' = nack + 1
   /\ UNCHANGED <<tail, total, phase>>
+PackEnd == phase = "packing" /\ phase' = "idle" /\ UNCHANGED <<pos, tail, total, ncommit, nack>>
 
 AbortDone ==
   /\ phase \in {"idle", "cut"}       \* an abort returns only with the file back at the committed end
@@ -102,7 +104,7 @@ Next ==
 (* ------------------------------ properties ------------------------------ *)
 \* bound for exhaustive checking only
 Bound == tail <= 120 /\ pos <= 400
-TypeOK == phase \in {"idle", "voting", "voted", "flipped", "synced", "cut"} /\ tail >= 0
+TypeOK == phase \in {"idle", "voting", "voted", "flipped", "synced", "cut", "packing"} /\ tail >= 0
 \* every acknowledged transaction survives any crash; at most the one in flight may additionally be present
 CrashConsistent == nack <= Recover /\ Recover <= nack + 1
 \* the transaction in flight is recoverable only once its commit point is on disk
